@@ -455,8 +455,9 @@ class Interp:
         if isinstance(f, Func):
             q = f.qualname
             c = self.contracts.get(q)
-            if c is not None and q != self.verifying and q not in self.inline:
-                return self.call_contract(c, f, args, kw)
+            if c is not None and q != self.verifying and q not in self.inline and (c.returns is not None or c.effects is not None):
+                return self.call_contract(c, f, args, kw)          # modular: callers see the contract, not the body
+            # a contract without a functional `returns` cannot stand in for the body: the (real) body is inlined instead
             return self.call_body(f, args, kw)
         if isinstance(f, ClassRef): return self.instantiate(f, args, kw)
         if isinstance(f, ExcClass): return Obj(f, {"msg": args[0] if args else None})
